@@ -4,7 +4,7 @@ AUTOINCREMENT counter, typed origin columns) is kept by every well-typed
 operation, hence holds after every history (property C18, lifting the
 single-step theorems of Proofs/TableTrack.lean to all histories).
 -/
-import Proofs.TableTrack
+import Proofs.TableTrackTyped
 namespace EngineModel
 namespace Table
 
@@ -75,7 +75,7 @@ theorem wf_add {s : Schema2} {st : TStmts} (ha : alignedT s st = true) {d : TDb}
         have := rowId_written hins he d.uuid (setCol nullRaw .id (.int (d.seq + 1))) none
         simp only [stampRow] at this
         rw [this]; simp [rowId, setCol, readInt]
-      refine ⟨?_, ?_, hwf.uuid⟩
+      refine ⟨?_, ?_, hwf.uuid, ?_, hwf.clk⟩
       · intro x hx
         simp only [List.mem_append, List.mem_singleton] at hx
         rcases hx with hx | hx
@@ -86,6 +86,17 @@ theorem wf_add {s : Schema2} {st : TStmts} (ha : alignedT s st = true) {d : TDb}
         rcases hx with hx | hx
         · exact hwf.typed x hx
         · subst hx; exact applyFix_typed hwf.uuid (written_typed hins he hr _)
+      · intro x hx
+        simp only [List.mem_append, List.mem_singleton] at hx
+        rcases hx with hx | hx
+        · exact hwf.cols x hx
+        · subst hx
+          rw [rowTypedT_iff]
+          refine RowTyped.applyFix hwf.uuid (RowTyped.written hins he hr ?_)
+          intro f hf
+          rcases not_writable hf with h | h
+          · subst h; rfl
+          · cases f <;> first | rfl | (exact Bool.noConfusion h)
     | throw e =>
       have : d' = d := by
         unfold tAdd at hres
@@ -110,7 +121,8 @@ theorem wf_add {s : Schema2} {st : TStmts} (ha : alignedT s st = true) {d : TDb}
 /-- `UPDATE … WHERE id = ?` keeps the invariant when the row it leaves is typed. -/
 theorem wf_updateWhereId {s : Schema2} {d : TDb} (hwf : d.Wf) {i : Int} {l : List (TCol × Val)}
     (hidcol : TCol.id ∉ l.map (·.1))
-    (htyped : ∀ old ∈ d.rows, originTyped (assign old l) = true) : (tUpdateWhereId s d i l).1.Wf := by
+    (htyped : ∀ old ∈ d.rows, originTyped (assign old l) = true)
+    (hcols : ∀ old ∈ d.rows, RowTyped (assign old l)) : (tUpdateWhereId s d i l).1.Wf := by
   cases hres : tUpdateWhereId s d i l with
   | mk d' res =>
     cases res with
@@ -124,7 +136,7 @@ theorem wf_updateWhereId {s : Schema2} {d : TDb} (hwf : d.Wf) {i : Int} {l : Lis
           rw [rowId_stampRow, rowId_applyFix]
           unfold rowId
           rw [assign_not_mem _ _ _ hidcol]; exact hrid
-        refine ⟨?_, ?_, hwf.uuid⟩
+        refine ⟨?_, ?_, hwf.uuid, ?_, hwf.clk⟩
         · intro x hx
           rcases mem_updRow hx with hx | ⟨o, ho, hoi, hxo⟩
           · exact hwf.ids x hx
@@ -135,6 +147,16 @@ theorem wf_updateWhereId {s : Schema2} {d : TDb} (hwf : d.Wf) {i : Int} {l : Lis
           · exact hwf.typed x hx
           · rw [hxo]; unfold afterUpdate
             exact stampRow_typed _ (applyFix_typed hwf.uuid (htyped old hmem))
+        · intro x hx
+          rcases mem_updRow hx with hx | ⟨o, ho, _, hxo⟩
+          · exact hwf.cols x hx
+          · rw [hxo, rowTypedT_iff]; unfold afterUpdate
+            refine RowTyped.stampRow (RowTyped.applyFix hwf.uuid (hcols old hmem)) _ ?_
+            intro t ht
+            unfold stampOf at ht
+            split at ht
+            · cases ht; exact hwf.clk
+            · cases ht
     | throw e => rw [tUpdateWhereId_fail hres]; exact hwf
     | ub u => exact absurd (by rw [hres]) (tUpdateWhereId_no_ub (s := s) (d := d) (i := i) (l := l) (u := u))
 
@@ -156,6 +178,8 @@ theorem wf_update {s : Schema2} {st : TStmts} (ha : alignedT s st = true) {d : T
         simp only
         have := wf_updateWhereId (s := s) hwf (i := i) (l := l) (id_not_written hupd he)
           (fun old _ => written_typed hupd he hr old)
+          (fun old hold => RowTyped.written hupd he hr
+            (fun f _ => (rowTypedT_iff old).mp (hwf.cols old hold) f))
         cases hu : tUpdateWhereId s d i l with
         | mk d2 res =>
           rw [hu] at this
@@ -184,6 +208,7 @@ theorem wf_setc {s : Schema2} {st : TStmts} (ha : alignedT s st = true) {d : TDb
           simp only [List.map_cons, List.map_nil, List.mem_singleton]
           exact fun hc => hf (TField.col_inj (f := f) (g := .id) hc.symm))
         (fun old hold => originTyped_setCol (hwf.typed old hold) hv hw)
+        (fun old hold => RowTyped.setCol ((rowTypedT_iff old).mp (hwf.cols old hold)) hv hw)
       cases hu : tUpdateWhereId s d i [(f.col, x)] with
       | mk d2 res =>
         rw [hu] at this
@@ -197,13 +222,15 @@ theorem wf_remove {st : TStmts} {d : TDb} (hwf : d.Wf) (i : Int) : (tRemove st d
   cases findRow .id d.rows i with
   | none => simp only; split <;> exact hwf
   | some _ =>
-    refine ⟨?_, ?_, hwf.uuid⟩
+    refine ⟨?_, ?_, hwf.uuid, ?_, hwf.clk⟩
     · intro x hx; exact hwf.ids x (List.mem_filter.mp hx).1
     · intro x hx; exact hwf.typed x (List.mem_filter.mp hx).1
+    · intro x hx; exact hwf.cols x (List.mem_filter.mp hx).1
 
-theorem TDb.empty_wf (uuid : Val) (clock : Int) (hu : uuidTyped uuid = true) :
+theorem TDb.empty_wf (uuid : Val) (clock : Int) (hu : uuidTyped uuid = true)
+    (hclk : in64 (clock * 1000000000) = true) :
     ({ TDb.empty with uuid := uuid, clock := clock } : TDb).Wf :=
-  ⟨fun _ h => (by cases h), fun _ h => (by cases h), hu⟩
+  ⟨fun _ h => (by cases h), fun _ h => (by cases h), hu, fun _ h => (by cases h), hclk⟩
 
 /-- **Histories.**  Every well-typed operation keeps the invariant … -/
 theorem wf_step {s : Schema2} {st : TStmts} (ha : alignedT s st = true) {d : TDb} (hwf : d.Wf)
